@@ -168,19 +168,94 @@ def check(ctx):
     def dominated(bb, k, label):
         return g.must_pass(bb, cut_edges=edge(k, label))[0]
 
-    # roll stores
+    # roll: what the three cells hold when the admission test is evaluated, per scenario (pv/sample.py Scenario) —
+    # computed by forward propagation of the stores along every path of the scenario, so the order and spelling of the
+    # stores does not matter, only their net effect
+    from ..sample import Scenario
     roll_st = [s for s in stores if dominated(s[0], "roll", "true") and s[2] in ("window", "prev", "current")]
-    seq = [(s[2], s[3]) for s in sorted(roll_st, key=lambda s: (sum(1 for t in roll_st if t[0] != s[0] and always_before(g, t[0], s[0])), s[1]))]
-    ok = seq == [("current", "0.0"), ("window", "now"), ("prev", "current"), ("current", "0.0")]
+
+    def forced(choice):
+        def swf(bb, e, ls):
+            for k, lab in choice.items():
+                if bb == found[k][0]:
+                    return (lab,)
+            return None
+        return swf
+
+    def states(choice):
+        scn = Scenario(ctx, b, switches=forced(choice), opt=False)
+        gg = scn.g
+        goal = found["reject"][0]
+        out = set()
+        npaths = [0]
+
+        def val(op, env, mem, point):
+            if op.place is None:
+                return R_(an.const_expr(op.const))
+            pl = op.place
+            if pl.local in cells and pl.proj == ["*"]:
+                return mem.get(cells[pl.local], cells[pl.local] + "0")
+            if pl.is_local() and pl.local in env:
+                return env[pl.local]
+            x = R_(an.operand_expr(op, point, 0))
+            return x
+
+        def walk(n, env, mem, seen):
+            if npaths[0] > 500 or n in seen:
+                return
+            bb = gg.bb(n)
+            if bb == goal:
+                npaths[0] += 1
+                out.add((mem.get("window", "window0"), mem.get("prev", "prev0"), mem.get("current", "current0")))
+                return
+            blk = b.blocks[bb]
+            env = dict(env)
+            mem = dict(mem)
+            for i2, s2 in enumerate(blk.stmts):
+                if s2.kind != "assign" or b.is_noise(s2):
+                    continue
+                if s2.rv.k in ("use", "cast") and s2.rv.ops:
+                    v = val(s2.rv.ops[0], env, mem, (bb, i2))
+                elif s2.rv.k == "binop":
+                    x, y = val(s2.rv.ops[0], env, mem, (bb, i2)), val(s2.rv.ops[1], env, mem, (bb, i2))
+                    v = comm(s2.rv.j["op"], x, y) if s2.rv.j["op"] in ("Add", "Mul") else "%s(%s,%s)" % (s2.rv.j["op"], x, y)
+                else:
+                    v = None
+                if s2.place.local in cells and s2.place.proj == ["*"]:
+                    mem[cells[s2.place.local]] = v if v is not None else "?"
+                elif s2.place.is_local():
+                    if v is not None:
+                        env[s2.place.local] = v
+                    else:
+                        env.pop(s2.place.local, None)
+            t2 = blk.term
+            if t2.kind == "call" and t2.dest is not None and t2.dest.is_local():
+                env.pop(t2.dest.local, None)
+            for m in gg.succ[n]:
+                walk(m, env, mem, seen | {n})
+        for n0 in gg.nodes_of_bb(ob):
+            walk(n0, {}, {}, frozenset())
+        return out
+    want_states = {
+        "no-roll": ({"roll": "false"}, ("window0", "prev0", "current0")),
+        "roll": ({"roll": "true", "stale": "false"}, ("now", "current0", "0.0")),
+        "roll-stale": ({"roll": "true", "stale": "true"}, ("now", "0.0", "0.0")),
+    }
+    got_states = {}
+    for nm, (choice, wanted) in sorted(want_states.items()):
+        got_states[nm] = states(choice)
+    ok = all(got_states[nm] == {want_states[nm][1]} for nm in ("no-roll", "roll"))
     ctx.check(ok, R, "C13/guards/roll-stores", site(b, found["roll"][0]),
-              reason="on the roll edge the stores are %s; expected [current := 0 (only if stale)], window := now, prev := current, current := 0 — in that order" % seq,
-              detail="roll: (stale: current := 0); window := now; prev := current; current := 0")
-    stale_st = [s for s in roll_st if dominated(s[0], "stale", "true")]
-    ctx.check([(s[2], s[3]) for s in stale_st] == [("current", "0.0")], R, "C13/guards/stale-zeroes-current", site(b, found["stale"][0]),
-              reason="on the ≥ 2·duration edge the stores are %s; expected exactly current := 0 (so prev becomes 0 on the roll)" % [(s[2], s[3]) for s in stale_st],
-              detail="age ≥ 2d: current := 0 before the roll")
-    ctx.check(dominated(found["stale"][0], "roll", "true"), R, "C13/guards/stale-inside-roll", site(b, found["stale"][0]),
-              reason="the 2·duration test is not nested in the roll", detail="2d test only when age ≥ d")
+              reason="(window, prev, current) at the admission test: without a roll %s, after a roll %s; expected (window, prev, current) unchanged / (now, current, 0)"
+                     % (sorted(got_states["no-roll"]), sorted(got_states["roll"])),
+              detail="age < d: cells unchanged; d <= age < 2d: (window, prev, current) := (now, current, 0)")
+    ctx.check(got_states["roll-stale"] == {want_states["roll-stale"][1]}, R, "C13/guards/stale-zeroes-current", site(b, found["stale"][0]),
+              reason="(window, prev, current) at the admission test when age >= 2·duration: %s; expected (now, 0, 0): an expired previous window must not count" % sorted(got_states["roll-stale"]),
+              detail="age >= 2d: (window, prev, current) := (now, 0, 0)")
+    # the 2·duration test has no effect unless the window rolls
+    ns = states({"roll": "false", "stale": "true"})
+    ctx.check(ns == {want_states["no-roll"][1]} or not ns, R, "C13/guards/stale-inside-roll", site(b, found["stale"][0]),
+              reason="the 2·duration test changes the cells without a roll: %s" % sorted(ns), detail="2d test only matters when age >= d")
     # the reject test comes after the roll region on every path
     roll_blocks = sorted(set(s[0] for s in roll_st))
     after = all(always_before(g, found["roll"][0], found["reject"][0]) for _ in [0]) and not any(
